@@ -15,11 +15,14 @@ STD_ORDER = ["CDR3A", "TRAV", "TRAJ", "MHCA", "CDR3B", "TRBV", "TRBJ", "MHCB", "
 # concrete cell texts per standard column: id 1 valid, 2 non-standard spelling, 3 junk
 POOL = {
     # id 1 valid, 2 non-standard spelling, 3 junk, 4 valid but special (non-functional gene / needs C..F completion / protein-level MHC)
-    "CDR3A": ["CAVRDSNYQLIW", "AVRDSNYQLI", "C1VR", "AVRDSNYQLIW"], "CDR3B": ["CASSLGQAYEQYF", "ASSLGQAYEQY", "not a cdr3", "CASSLGQAYEQY"],
-    "TRAV": ["TRAV12-2*01", "av26.1*1", "unknown", "TRAV8-5*01"], "TRBV": ["TRBV7-9*01", "TCRBV28S1*01", "foobar", "TRBV1*01"],
-    "TRAJ": ["TRAJ43*01", "aj43*1", "unknown", "TRAJ51*01"], "TRBJ": ["TRBJ2-7*01", "TCRBJ2S6*01", "n/a", "TRBJ2-2P*01"],
-    "MHCA": ["HLA-A*02:01", "b8", "zzz", "HLA-DRA*01:01"], "MHCB": ["B2M", "b2m", "???", "HLA-DRB1*15:01"],
-    "Epitope": ["GILGFVFTL", "gilgfvftl", "NOT-A-PEPTIDE-1", "NLVPMVATV"],
+    # id 5 / 6: look well-formed to a casual test but are changed (or rejected) by the standardiser: CDR3 ending in C, lower case,
+    # gene without allele / with a trailing blank, peptide with a blank
+    "CDR3A": ["CAVRDSNYQLIW", "AVRDSNYQLI", "C1VR", "AVRDSNYQLIW", "CAVC", "cavrdsnyqliw"],
+    "CDR3B": ["CASSLGQAYEQYF", "ASSLGQAYEQY", "not a cdr3", "CASSLGQAYEQY", "CASSPGC", "C"],
+    "TRAV": ["TRAV12-2*01", "av26.1*1", "unknown", "TRAV8-5*01", "TRAV12-2", "TRAV12-2*01 "], "TRBV": ["TRBV7-9*01", "TCRBV28S1*01", "foobar", "TRBV1*01", "TRBV7-9", "trbv7-9*01"],
+    "TRAJ": ["TRAJ43*01", "aj43*1", "unknown", "TRAJ51*01", "TRAJ43", "TRAJ43*01 "], "TRBJ": ["TRBJ2-7*01", "TCRBJ2S6*01", "n/a", "TRBJ2-2P*01", "TRBJ2-7", "trbj2-7*01"],
+    "MHCA": ["HLA-A*02:01", "b8", "zzz", "HLA-DRA*01:01", "HLA-A2", "HLA-A*02"], "MHCB": ["B2M", "b2m", "???", "HLA-DRB1*15:01", "HLA-B*07", "DRB1*15:01"],
+    "Epitope": ["GILGFVFTL", "gilgfvftl", "NOT-A-PEPTIDE-1", "NLVPMVATV", "GILGFVFTL ", "GILGFVFTC"],
 }
 # executed in this order in ONE interpreter: the options of an earlier call must not influence a later one (the default set
 # comes again after the permissive one)
@@ -268,11 +271,11 @@ def run(ctx):
             kinds = ["std"] + (["pred", "merge"] if oi == 0 else [])
             # quick: all four cell classes in one-row tables for the first option set, two-row tables over two classes afterwards
             res = run_cfg(ctx, f"cleaning{oi}", cfg_text(kinds, maxlen=3 if q else 4, maxrows=(1 if oi == 0 else 2) if q else 2,
-                                                          cellids=((1, 2, 3, 4) if oi == 0 else (1, 4)) if q else (1, 2, 3, 4),
+                                                          cellids=((1, 2, 3, 4, 5, 6) if oi == 0 else (1, 4, 5)) if q else (1, 2, 3, 4, 5, 6),
                                                           colsets="CS1", maxtables=4, keyvals=(1, 2) if q else (1, 2, 3)), stdfile)
             if oi == 0 and not q:
                 # all nine standard columns at once: one-row tables over two cell classes per column (3^9 tables)
-                r9 = run_cfg(ctx, "cleaning9", cfg_text(["std"], maxrows=1, cellids=(1, 4), colsets="CS9"), stdfile)
+                r9 = run_cfg(ctx, "cleaning9", cfg_text(["std"], maxrows=1, cellids=(1, 5), colsets="CS9"), stdfile)
                 res.printed = list(res.printed) + [d_ for d_ in r9.printed if "kind" in d_ and len(d_.get("tab", [])) == 1]
             _STATE[oi] = (interner, opts)
             items = []
